@@ -644,3 +644,11 @@ package biscuit
 //@ loop 13 invariant len(errMsg) == len(errs) && fresh(arr(errMsg)) && (forall k int :: { errs[k] } 0 <= k && k < len(errs) ==> errs[k] != nil)
 //@ ensures allow_needed[C04]: err == nil ==> (exists p int :: { v.policies[p] } 0 <= p && p < len(v.policies) && v.policies[p].Kind == PolicyKindAllow)
 //@ ensures within_limits[C11]: err == nil ==> len(*v.world.facts) < v.world.runLimits.maxFacts
+
+//@ func (v *authorizer) Query(rule Rule) (res FactSet, err error)
+//@ serves C03 C10 C11 C13
+//@ requires authInv(v) && bRuleWF(rule)
+//@ modifies v.dirty, *v.world.facts, spare(*v.world.facts), *v.symbols, spare(*v.symbols)
+//@ loop 0 invariant len(result) == #i && cap(result) == len(*facts) && fresh(arr(result)) && factsWF(*facts)
+//@ ensures limit_error_is_reported[C11]: err == nil ==> len(*v.world.facts) < v.world.runLimits.maxFacts
+//@ ensures base_untouched[C13]: v.baseWorld == old(v.baseWorld) && v.baseSymbols == old(v.baseSymbols)
